@@ -288,6 +288,34 @@ def m_iter_search(eng, m, args, dest_ts, st, where):
     return res
 
 
+@model('Iterator::reduce', r'^<(.+) as Iterator>::reduce::<.*>$')
+def m_iter_reduce(eng, m, args, dest_ts, st, where):
+    # core::iter::Iterator::reduce: `let first = self.next()?; Some(self.fold(first, f))`
+    it = _iter_arg(eng, st, args[0])
+    elems = it_elems(eng, it, st, where, st.pc)
+    _consume(eng, st, args[0])
+    dt = eng.ty(dest_ts)
+    have = z3.BoolVal(False)
+    acc = None
+    for g, x in elems:
+        g = z3.simplify(g)
+        if z3.is_false(g):
+            continue
+        if acc is None:
+            acc, have = x, g
+            continue
+        feas = z3.simplify(AND(g, have))
+        new = acc
+        if not z3.is_false(feas):
+            st2 = _sub_state(st, AND(st.pc, feas))
+            new = eng.call_callable(args[1], [acc, x], st2, where)
+        acc = ite(AND(g, have), new, ite(g, x, acc))
+        have = OR(have, g)
+    if acc is None:
+        return mk_variant(dt, 'None')
+    return ite(have, mk_variant(dt, 'Some', [acc]), mk_variant(dt, 'None'))
+
+
 @model('Iterator::{max_by,min_by,max_by_key,min_by_key}', r'^<(.+) as Iterator>::(max_by|min_by|max_by_key|min_by_key)::<(.*)>$')
 def m_iter_by(eng, m, args, dest_ts, st, where):
     it = _iter_arg(eng, st, args[0])
@@ -391,6 +419,28 @@ def m_slice_get_mut(eng, m, args, dest_ts, st, where):
         return mk_variant(dt, 'None')
     ok = z3.ULT(idx, v.len) if k != 'last' else v.len != 0
     return ite(ok, mk_variant(dt, 'Some', [Ref(r.root, r.path + (('si', idx),))]), mk_variant(dt, 'None'))
+
+
+@model('u8 / char ASCII class tests', r'^core::num::<impl u8>::(is_ascii_digit|is_ascii_alphabetic|is_ascii_alphanumeric|is_ascii_lowercase|is_ascii_uppercase)$|^core::char::methods::<impl char>::(is_ascii_digit|is_ascii_alphabetic|is_ascii_alphanumeric|is_ascii_lowercase|is_ascii_uppercase)$')
+def m_ascii_class(eng, m, args, dest_ts, st, where):
+    b = deref(eng, st, args[0]).t
+    w = b.size()
+    rng = lambda lo, hi: AND(z3.UGE(b, bv(ord(lo), w)), z3.ULE(b, bv(ord(hi), w)))
+    k = m.group(1) or m.group(2)
+    dig, low, up = rng('0', '9'), rng('a', 'z'), rng('A', 'Z')
+    return Sc({'is_ascii_digit': dig, 'is_ascii_lowercase': low, 'is_ascii_uppercase': up, 'is_ascii_alphabetic': OR(low, up),
+               'is_ascii_alphanumeric': OR(dig, low, up)}[k])
+
+
+@model('str::bytes / str::as_bytes over a bounded symbolic content', r'^core::str::<impl str>::(bytes|as_bytes)$')
+def m_str_bytes(eng, m, args, dest_ts, st, where):
+    content = getattr(eng, 'str_content', None)
+    if content is None or not eng.tenv.string_as_slice:
+        return NotImplemented
+    v = content(deref(eng, st, args[0]))
+    if v is None:
+        raise Unsupported('bytes of a string whose content is not modelled')
+    return It('src', v, bv(0, 64)) if m.group(1) == 'bytes' else v
 
 
 @model('Index<usize> for Vec / slices', r'^<(?:Vec<.+>|\[.+\]) as Index(?:Mut)?<usize>>::index(?:_mut)?$')
